@@ -267,7 +267,7 @@ def cases(rng, tier):
         yield {"k": "urlsplit", "url": u}
 
     # ---- seeded random
-    n = 4000 if tier == "quick" else 200000
+    n = 25000 if tier == "quick" else 200000
     kf_budget = [6]
     for _ in range(n):
         r = rng.random()
